@@ -36,8 +36,9 @@ func (n *RawNode) Unicast(ctx context.Context, d CallData, opts ...CallOption) {
 	// wait until the message has been sent
 	select {
 	case <-replyChan:
+		vEmit("CallConfirm", 0, md.MessageID, "left", 0)
+		vEmit("CallEnd", 0, md.MessageID, "out", "sent")
 	case <-ctx.Done():
+		vEmit("CallEnd", 0, md.MessageID, "out", "ctx")
 	}
-	vEmit("CallConfirm", 0, md.MessageID, "left", 0)
-	vEmit("CallEnd", 0, md.MessageID, "out", "sent")
 }
